@@ -454,9 +454,159 @@ end Erbium.Generated.Dns
     write_if_changed(os.path.join(OUT, "Dns.lean"), out)
 
 
+# ------------------------------------------------------------------------------------------------
+GUARD_TOKEN = re.compile(r"\s*(self\.offset|self\.buffer\.len\(\)|self\.size\(\)|[A-Za-z_][A-Za-z_0-9]*|[0-9_]+|<=|>=|==|!=|<|>|\+|\*|\(|\))")
+
+
+def guard_to_lean(expr, names):
+    """translate a small Rust comparison (identifiers, + *, one comparison) into a Lean Bool expression; None if anything
+    else occurs. `names` maps Rust atoms to Lean variable names."""
+    out = []
+    i = 0
+    expr = expr.strip()
+    while i < len(expr):
+        m = GUARD_TOKEN.match(expr, i)
+        if not m:
+            return None
+        t = m.group(1)
+        i = m.end()
+        if t in names:
+            out.append(names[t])
+        elif re.fullmatch(r"[0-9_]+", t):
+            out.append(str(rust_int(t)))
+        elif t in ("<=", ">=", "==", "!=", "<", ">", "+", "*", "(", ")"):
+            out.append({"<=": "≤", ">=": "≥", "==": "=", "!=": "≠"}.get(t, t))
+        else:
+            return None
+    return "decide (" + " ".join(out) + ")"
+
+
+def non_test(src):
+    """the part of a source file before its tests"""
+    cut = len(src)
+    for pat in (r"^#\[cfg\(test\)\]", r"^#\[test\]", r"^#\[tokio::test\]"):
+        m = re.search(pat, src, re.M)
+        if m:
+            cut = min(cut, m.start())
+    return src[:cut]
+
+
+RAW_OP = re.compile(r"(?<![#!\w])(?:\w+(?:\.\w+)*)\[[^\[\]]+\]|\.unwrap\(\)|\.expect\(|\bpanic!|\bunimplemented!|\bunreachable!|\bassert!|\bassert_eq!|(?<=\S) - (?=\S)|\bas u8\b|\bas u16\b")
+
+
+def census(path, skip_fns=()):
+    """sorted multiset of the operations in a decoder source that can panic (index/slice expressions, unwrap/expect,
+    panicking macros, binary minus, narrowing casts), outside tests and the listed functions"""
+    src = non_test(strip_comments(read(path)))
+    for f in skip_fns:
+        while True:
+            b = fn_body(src, f)
+            if not b or b == "{}":
+                break
+            src = src.replace(b, "{ }", 1)
+            src = re.sub(r"\bfn\s+" + re.escape(f) + r"\b", "fn_skipped_" + f, src, count=1)
+    found = {}
+    for m in RAW_OP.finditer(src):
+        k = re.sub(r"\s+", "", m.group(0))
+        found[k] = found.get(k, 0) + 1
+    return found
+
+
+def gen_pkt():
+    pp = strip_comments(read(os.path.join(CORE, "pktparser/mod.rs")))
+    dp = strip_comments(read(os.path.join(CORE, "dns/parse.rs")))
+    ic = strip_comments(read(os.path.join(CORE, "radv/icmppkt.rs")))
+    ll = strip_comments(read(os.path.join(CORE, "lldp/lldppkt.rs")))
+    lm = strip_comments(read(os.path.join(CORE, "lldp/mod.rs")))
+    dm = strip_comments(read(os.path.join(CORE, "dhcp/mod.rs")))
+    dk = strip_comments(read(os.path.join(CORE, "dhcp/dhcppkt.rs")))
+    dn = strip_comments(read(os.path.join(CORE, "dns/dnspkt.rs")))
+    net = strip_comments(read(os.path.join(NET, "lib.rs")))
+    L = ["-- generated by tools/extract.py from the packet decoders; do not edit", "namespace Erbium.Generated.Pkt"]
+
+    def guard(item, body, pattern, names, params, where):
+        """`if <cond> {` inside the function body -> def item (params) : Bool"""
+        g = grab("pkt." + item, body, pattern, where, lambda m: guard_to_lean(m.group(1), names))
+        if g is None:
+            status["pkt." + item]["ok"] = False
+            g = "false"        # sentinel: the guarded raw operation is then never protected in the model
+        L.append("def %s (%s : Nat) : Bool := %s" % (item, " ".join(params), g))
+
+    nm = {"self.offset": "off", "self.buffer.len()": "len", "self.size()": "len"}
+    guard("bufGetU8Guard", fn_body(pp, "get_u8"), r"^\s*\{\s*if\s+([^{]+?)\s*\{\s*let ret = self\.buffer\[self\.offset\];", nm, ["off", "len"], "pktparser get_u8")
+    guard("bufPeekU8Guard", fn_body(pp, "peek_u8"), r"^\s*\{\s*if\s+([^{]+?)\s*\{\s*Some\(self\.buffer\[self\.offset\]\)", nm, ["off", "len"], "pktparser peek_u8")
+    guard("bufGetBytesGuard", fn_body(pp, "get_bytes"), r"^\s*\{\s*if\s+([^{]+?)\s*\{\s*let ret = &self\.buffer\[self\.offset\.\.self\.offset \+ b\];",
+          dict(nm, b="b"), ["off", "b", "len"], "pktparser get_bytes")
+    guard("bufGetBufferGuard", fn_body(pp, "get_buffer"), r"^\s*\{\s*if\s+([^{]+?)\s*\{\s*let ret = Buffer \{\s*buffer: &self\.buffer\[self\.offset\.\.self\.offset \+ b\],",
+          dict(nm, b="b"), ["off", "b", "len"], "pktparser get_buffer")
+    guard("bufSetOffsetGuard", fn_body(pp, "set_offset"), r"^\s*\{\s*if\s+([^{]+?)\s*\{\s*self\.offset = o;", dict(nm, o="o"), ["o", "len"], "pktparser set_offset")
+    guard("dnsPeekU8Guard", fn_body(dp, "peek_u8"), r"^\s*\{\s*if\s+([^{]+?)\s*\{\s*Ok\(self\.buffer\[self\.offset\]\)", nm, ["off", "len"], "dns/parse.rs peek_u8")
+    guard("dnsGetBytesGuard", fn_body(dp, "get_bytes"), r"^\s*\{\s*if\s+([^{]+?)\s*\{\s*let ret = self\.buffer\[self\.offset\.\.self\.offset \+ count\]\.to_vec\(\);",
+          dict(nm, count="count"), ["off", "count", "len"], "dns/parse.rs get_bytes")
+    guard("ednsOptShort", fn_body(dp, "get_option"), r"if\s+([^{]+?)\s*\{\s*return Err\(format!\(\s*\"Truncated EDNS Option",
+          {"self.buffer.len()": "buflen", "len": "len"}, ["buflen", "len"], "dns/parse.rs EdnsParser::get_option")
+    # ICMPv6
+    ipar = fn_body(ic, "parse")
+    iopt = fn_body(ic, "parse_nd_rtr_options")
+    v = grab("pkt.icmpMinLen", ipar, r"if\s+pkt\.len\(\)\s*<\s*([0-9]+)\s*\{\s*return Err\(Error::Truncated\)", "icmppkt parse", lambda m: int(m.group(1)))
+    L.append("def icmpMinLen : Nat := %s" % nat(v))
+    v = grab("pkt.icmpZeroLenRejected", iopt, r"if\s+l\s*==\s*0\s*\{\s*return Err\(Error::Truncated\);\s*\}\s*let data = buf\.get_bytes\(", "icmppkt parse_nd_rtr_options", lambda m: True)
+    L.append("def icmpZeroLenRejected : Bool := %s" % boolean(v))
+    v = grab("pkt.icmpOptDataLen", iopt, r"buf\.get_bytes\(l \* ([0-9]+) - ([0-9]+)\)", "icmppkt parse_nd_rtr_options", lambda m: (int(m.group(1)), int(m.group(2))))
+    L.append("def icmpOptUnit : Nat := %s" % nat(v[0] if v else None))
+    L.append("def icmpOptHeader : Nat := %s" % nat(v[1] if v else None, "1000000"))
+
+    def lencheck(item, const):
+        r = grab("pkt." + item, iopt, r"\(" + const + r", value\) => \{(?:\s*use [^;]+;)*\s*if value\.len\(\) != ([0-9 *\-]+)\{", "icmppkt " + const,
+                 lambda m: eval(m.group(1), {"__builtins__": {}}))
+        L.append("def %s : Nat := %s" % (item, nat(r)))
+    lencheck("icmpPref64Len", "PREF64")
+    lencheck("icmpMtuLen", "MTU")
+    lencheck("icmpPrefixLen", "PREFIX_INFO")
+    # LLDP
+    v = grab("pkt.lldpMgmtLenChecked", fn_body(ll, "from_wire", 9) or "", r"let mgmt_addr_len = buf\s*\.get_u8\(\)\s*\.ok_or\([^)]*\)\?\s*\.checked_sub\(1\)\s*\.ok_or_else\(",
+             "lldppkt ManagementAddress::from_wire", lambda m: True)
+    if v is None:   # locate by content rather than by ordinal
+        v = grab("pkt.lldpMgmtLenChecked", ll, r"let mgmt_addr_len = buf\s*\.get_u8\(\)\s*\.ok_or\([^)]*\)\?\s*\.checked_sub\(1\)\s*\.ok_or_else\(",
+                 "lldppkt ManagementAddress::from_wire", lambda m: True)
+    L.append("def lldpMgmtLenChecked : Bool := %s" % boolean(v))
+    v = grab("pkt.lldpFrameChecked", fn_body(lm, "decode_frame"), r"let pdu = frame\s*\.get\(([0-9]+)\.\.\)\s*\.ok_or\(", "lldp/mod.rs decode_frame", lambda m: int(m.group(1)))
+    used = grab("pkt.lldpFrameDecodeUsed", fn_body(lm, "run"), r"match decode_frame\(&msg\.buffer\)", "lldp/mod.rs run", lambda m: True)
+    L.append("def lldpFrameChecked : Bool := %s" % boolean(v is not None and used))
+    L.append("def lldpHeaderLen : Nat := %s" % nat(v, "14"))
+    # DHCP
+    v = grab("pkt.dhcpToArrayChecked", fn_body(dm, "to_array"), r"^\s*\{\s*mac\.get\(0\.\.6\)\?\.try_into\(\)\.ok\(\)\s*\}\s*$", "dhcp/mod.rs to_array", lambda m: True)
+    L.append("def dhcpToArrayChecked : Bool := %s" % boolean(v))
+    v = grab("pkt.dhcpHlenChecked", fn_body(dk, "parse"), r"if hlen as usize > chaddr\.len\(\) \{\s*return Err\(ParseError::InvalidPacket\);\s*\}", "dhcppkt parse", lambda m: True)
+    L.append("def dhcpHlenChecked : Bool := %s" % boolean(v))
+    v = grab("pkt.subnetPrefixLenMax", fn_body(net, "new"), r"^\s*\{\s*if prefixlen > ([0-9]+) \{\s*return Err\(Error::InvalidSubnet\);\s*\}", "erbium-net Ipv4Subnet::new", lambda m: int(m.group(1)))
+    L.append("def subnetPrefixLenMax : Option Nat := %s" % ("some %d" % v if v is not None else "none"))
+    # EDNS accessors
+    v = grab("pkt.cookieMinLen", fn_body(dn, "get_cookie"), r"\.filter\(\|opt\| opt\.data\.len\(\) >= ([0-9]+)\)\s*\.map\(\|opt\| \(&opt\.data\[\.\.8\], opt\.data\.get\(8\.\.\)\)\)", "dnspkt get_cookie", lambda m: int(m.group(1)))
+    L.append("def cookieMinLen : Nat := %s" % nat(v))
+    v = grab("pkt.edeMinLen", fn_body(dn, "get_extended_dns_error"), r"\.filter\(\|opt\| opt\.data\.len\(\) >= ([0-9]+)\)\s*\.map\(\|opt\| \{\s*\(\s*EdeCode\(u16::from_be_bytes\(\[opt\.data\[0\], opt\.data\[1\]\]\)\),\s*String::from_utf8_lossy\(&opt\.data\[2\.\.\]\)", "dnspkt get_extended_dns_error", lambda m: int(m.group(1)))
+    L.append("def edeMinLen : Nat := %s" % nat(v))
+    L.append("end Erbium.Generated.Pkt")
+    write_if_changed(os.path.join(OUT, "Pkt.lean"), "\n".join(L) + "\n")
+    # census of the operations that can panic, per decoder source: the model has one primitive per entry
+    pin_path = os.path.join(os.path.dirname(os.path.abspath(__file__)), "census.json")
+    pinned = json.load(open(pin_path)) if os.path.exists(pin_path) else {}
+    files = {"pktparser": (os.path.join(CORE, "pktparser/mod.rs"), ("fmt",)),
+             "dnsparse": (os.path.join(CORE, "dns/parse.rs"), ()),
+             "icmppkt": (os.path.join(CORE, "radv/icmppkt.rs"), ("arbitrary", "serialise_router_advertisement", "serialise", "find_option")),
+             "lldppkt": (os.path.join(CORE, "lldp/lldppkt.rs"), ("to_wire", "validate_format", "fmt")),
+             "lldpmod": (os.path.join(CORE, "lldp/mod.rs"), ())}
+    cur = {k: census(p, skip) for k, (p, skip) in files.items()}
+    if os.environ.get("VERIF_PIN_CENSUS"):
+        json.dump(cur, open(pin_path, "w"), indent=1, sort_keys=True)
+        pinned = cur
+    for k in files:
+        status["census." + k] = {"ok": cur[k] == pinned.get(k), "value": cur[k], "where": files[k][0].replace(REPO + "/", "")}
+
+
 def main():
     os.makedirs(OUT, exist_ok=True)
-    gens = [gen_dhcp, gen_pool, gen_acl, gen_dns]
+    gens = [gen_dhcp, gen_pool, gen_acl, gen_dns, gen_pkt]
     for g in gens:
         try:
             g()
